@@ -16,7 +16,6 @@ package main
 import (
 	"bufio"
 	"bytes"
-	"encoding/binary"
 	"encoding/hex"
 	"encoding/json"
 	"fmt"
@@ -44,155 +43,13 @@ type universe struct {
 	specs [][]*vals.Spec // per family
 }
 
-// instants: the same instant in three zones, neighbours, and instants outside
-// the range in which time.Time.UnixNano is defined (1678..2262).
-func instants(thorough bool) []time.Time {
-	z1, z8 := time.FixedZone("", 3600), time.FixedZone("", -8*3600)
-	t0 := model.T0
-	old := time.Date(1500, 1, 1, 0, 0, 0, 0, time.UTC)
-	wrap := old
-	for i := 0; i < 4; i++ { // + 2^64 ns in four steps of 2^62 ns
-		wrap = wrap.Add(time.Duration(1 << 62))
-	}
-	out := []time.Time{
-		t0, t0.In(z1), t0.In(z8), // one instant, three zones
-		t0.Add(time.Nanosecond), t0.Add(-time.Nanosecond), model.T1,
-		time.Unix(0, 1).UTC(), time.Unix(0, 0).UTC(),
-		old, wrap, // 2^64 ns apart: one outside, one inside the UnixNano range
-		time.Date(1, 1, 1, 0, 0, 0, 0, time.UTC), time.Date(9999, 12, 31, 23, 59, 59, 999999999, time.UTC),
-	}
-	if thorough {
-		y1 := time.Date(1, 1, 1, 0, 0, 0, 0, time.UTC)
-		w1 := y1
-		for i := 0; i < 4; i++ {
-			w1 = w1.Add(time.Duration(1 << 62))
-		}
-		out = append(out, w1, w1.In(z1), model.T2, model.T3, t0.Add(time.Second), t0.Add(1<<32),
-			time.Date(1677, 9, 21, 0, 12, 43, 145224191, time.UTC), time.Date(1677, 9, 21, 0, 12, 43, 145224192, time.UTC),
-			time.Date(2262, 4, 11, 23, 47, 16, 854775807, time.UTC), time.Date(2262, 4, 11, 23, 47, 16, 854775808, time.UTC),
-			old.In(z8), time.Date(9999, 12, 31, 23, 59, 59, 999999999, z8))
-	}
-	return out
-}
-
-// varint16 is the byte string a 16-byte zero-padded signed varint occupies; it
-// is used only to *construct* ids whose bytes coincide with those of another
-// kind of value (the expected verdict never depends on it).
-var longX = strings.Repeat("k", 300)
-
-func varint16(v int64) string {
-	b := make([]byte, 16)
-	binary.PutVarint(b, v)
-	return string(b)
-}
-
-func nodeSpecs(thorough bool) []*vals.Spec {
-	types := []string{"/a", "/a/b", "/ab", "/a/b/c", "/t", "/_"}
-	ids := []string{"a", "b", "c", "bc", "/b", "/bc", "/b/c", "b/c", "immutable", "é", "A", varint16(1), varint16(2),
-		longX + "a", longX + "b"} // longer than any fixed-size buffer, equal on the first 300 bytes
-	if thorough {
-		types = append(types, "/A", "/t/u", "/é")
-		ids = append(ids, "ab", "a/b", "/", "//b", "c ", " c", "immutabl", "immutablee", "text\x00abc", varint16(0), "\x00", "aimmutable")
-	}
-	var out []*vals.Spec
-	for _, t := range types {
-		if _, err := node.NewType(t); err != nil {
-			continue
-		}
-		for _, id := range ids {
-			out = append(out, vals.NodeSpec(t, id))
-		}
-	}
-	// closure under the function being checked: ids that are the printed UUID of another value of the
-	// universe (a node, a predicate, a literal), in every spelling a UUID parser accepts, on a blank and
-	// on a typed node. NewBlankNode produces exactly such ids, and a UUID that is derived from an id
-	// that is itself a UUID must still separate all of them.
-	seeds := []*vals.Spec{vals.NodeSpec("/a", "a"), vals.NodeSpec("/_", "a"), vals.ImmSpec("a"), vals.TextSpec("abc")}
-	if thorough {
-		seeds = append(seeds, vals.NodeSpec("/t", "b"), vals.TempSpec("p", model.T0), vals.BoolSpec(true), vals.IntSpec(1))
-	}
-	for _, sd := range seeds {
-		u := fmt.Sprintf("%x", uuidOf(vals.MustBuild(sd)))
-		if len(u) != 32 {
-			continue
-		}
-		canon := u[0:8] + "-" + u[8:12] + "-" + u[12:16] + "-" + u[16:20] + "-" + u[20:]
-		for _, id := range []string{canon, strings.ToUpper(canon), "urn:uuid:" + canon, "{" + canon + "}", u} {
-			for _, t := range []string{"/_", "/t"} {
-				out = append(out, vals.NodeSpec(t, id))
-			}
-		}
-	}
-	return out
-}
-
-func predSpecs(thorough bool) []*vals.Spec {
-	ids := []string{longX + "a", longX + "b", "a", "/a", "/t", "p", "ab", "A", "é", "text\x00abc", "blob\x00abc", "text\x00", "bool\x00true", "aimmutable", "a" + varint16(model.T0.UnixNano())}
-	if thorough {
-		ids = append(ids, "/a/b", "/", "immutable", "b", "a\x00", "float64\x00"+strings.Repeat("\x00", 8), "int64\x00"+strings.Repeat("\x00", 10), "a ", "predicate\x00a")
-	}
-	ts := instants(thorough)
-	var out []*vals.Spec
-	for _, id := range ids {
-		out = append(out, vals.ImmSpec(id))
-		for _, t := range ts {
-			out = append(out, vals.TempSpec(id, t))
-		}
-	}
-	return out
-}
-
-func litSpecs(thorough bool) []*vals.Spec {
-	out := []*vals.Spec{vals.BoolSpec(true), vals.BoolSpec(false)}
-	texts := []string{longX + "a", longX + "b", "", "true", "false", "abc", "0", "1", "abcimmutable", "immutable", "trueimmutable", "\x00", strings.Repeat("\x00", 8), strings.Repeat("\x00", 10), "[]", "a"}
-	for _, t := range texts {
-		out = append(out, vals.TextSpec(t), vals.BlobSpec([]byte(t)))
-	}
-	ints, floats := vals.Int64Boundaries(), vals.Float64Boundaries()
-	if !thorough {
-		// quick: every third boundary value (all of them are in the definedness pass)
-		ints, floats = every(ints, 3), everyF(floats, 3)
-	}
-	for _, v := range ints {
-		out = append(out, vals.IntSpec(v))
-	}
-	for _, v := range floats {
-		out = append(out, vals.FloatSpec(v))
-	}
-	// payloads that print alike across types
-	out = append(out, vals.IntSpec(0), vals.FloatSpec(0), vals.IntSpec(1), vals.FloatSpec(1), vals.TextSpec("1"))
-	return dedup(out)
-}
-
-func every(v []int64, k int) []int64 {
-	var out []int64
-	for i := 0; i < len(v); i += k {
-		out = append(out, v[i])
-	}
-	return out
-}
-func everyF(v []float64, k int) []float64 {
-	var out []float64
-	for i := 0; i < len(v); i += k {
-		out = append(out, v[i])
-	}
-	return out
-}
-
-func specID(s *vals.Spec) string { b, _ := json.Marshal(s); return string(b) }
-
-func dedup(in []*vals.Spec) []*vals.Spec {
-	seen := map[string]bool{}
-	var out []*vals.Spec
-	for _, s := range in {
-		k := specID(s)
-		if !seen[k] {
-			seen[k] = true
-			out = append(out, s)
-		}
-	}
-	return out
-}
+func instants(thorough bool) []time.Time   { return vals.NearInstants(thorough) }
+func varint16(v int64) string              { return vals.Varint16(v) }
+func nodeSpecs(thorough bool) []*vals.Spec { return vals.NearNodes(thorough) }
+func predSpecs(thorough bool) []*vals.Spec { return vals.NearPreds(thorough) }
+func litSpecs(thorough bool) []*vals.Spec  { return vals.NearLits(thorough) }
+func specID(s *vals.Spec) string           { return vals.SpecID(s) }
+func dedup(in []*vals.Spec) []*vals.Spec   { return vals.Dedup(in) }
 
 func buildUniverse(thorough bool) *universe {
 	ns, ps, ls := nodeSpecs(thorough), predSpecs(thorough), litSpecs(thorough)
